@@ -154,7 +154,7 @@ class TrackObs(Observer):
             'pmax': pmax, 'codeP': codeP, 'profOK': prof_ok})
 
     # ------------------------------------------------------------------
-    def events(self, tables_ok=1):
+    def events(self, tables_ok=1, ptab=None):
         r = self.r
         n = len(r.assemblies)
         ptot = max([1e-9] + [abs(e['P']) for e in self.raw]
@@ -222,7 +222,14 @@ class TrackObs(Observer):
                            for a in r.assemblies],
                    'pkD': [[pk(float(v), float(h)) for v, h in a._peak['duct']]
                            for a in r.assemblies],
-                   'tables': int(tables_ok), 'clipped': clipped[0]})
+                   'tables': int(tables_ok), 'clipped': clipped[0],
+                   # printed pressure-drop table ([] not requested; an entry
+                   # printed as '---' is -1; an unreadable table is [[-2]*5])
+                   'ptab': ([] if ptab is None else
+                            [[-2] * 5] * n if ptab == 'unreadable' else
+                            [[-1 if v is None else qt(v) for v in row]
+                             for row in ptab])})
         cfg = {'nasm': n, 'grids': grids, 'blo': blo, 'bhi': bhi,
+               'gravity': int(self.gravity),
                'nslots': self.nslots, 'npin': npin, 'exact': self.exact}
         return cfg, ev
